@@ -34,12 +34,18 @@ func runC13(c *ctx) {
 		secret string
 		acr    string
 		locale string
+		acrSup []string // advertised by the provider (nil = both idporten-loa values)
+		locSup []string
 	}
 	variants := []variant{
-		{[]string{"http://wonderwall"}, false, "", "Level4", "nb"},
-		{[]string{"http://wonderwall", "http://wonderwall/app"}, true, "", "idporten-loa-substantial", ""},
-		{[]string{"https://a.example.com/x", "https://b.example.com", "http://wonderwall/app/deep"}, false, "s3cr3t-client-secret-value", "", "en"},
-		{[]string{"http://wonderwall/app"}, true, "s3cr3t-client-secret-value", "Level3", "nb"},
+		{[]string{"http://wonderwall"}, false, "", "Level4", "nb", nil, nil},
+		{[]string{"http://wonderwall", "http://wonderwall/app"}, true, "", "idporten-loa-substantial", "", nil, nil},
+		{[]string{"https://a.example.com/x", "https://b.example.com", "http://wonderwall/app/deep"}, false, "s3cr3t-client-secret-value", "", "en", nil, nil},
+		{[]string{"http://wonderwall/app"}, true, "s3cr3t-client-secret-value", "Level3", "nb", nil, nil},
+		// a provider that advertises only part of what a request may ask for: a requested level / locale (or the translation of a legacy level) that is not
+		// advertised must fall back to the configured default
+		{[]string{"http://wonderwall"}, false, "", "Level3", "en", []string{"idporten-loa-substantial", "custom-acr"}, []string{"en"}},
+		{[]string{"http://wonderwall"}, true, "", "custom-acr", "se", []string{"custom-acr", "idporten-loa-high"}, []string{"se", "nb"}},
 	}
 	n := 250
 	if c.thorough() {
@@ -59,7 +65,7 @@ func runC13(c *ctx) {
 		}
 	}
 	for vi, v := range variants {
-		s := newSut(sutOpts{ingresses: v.ings, par: v.par, clientSecret: v.secret, acr: v.acr, locale: v.locale, sidRequired: true, secure: false})
+		s := newSut(sutOpts{ingresses: v.ings, par: v.par, clientSecret: v.secret, acr: v.acr, locale: v.locale, sidRequired: true, secure: false, acrSupported: v.acrSup, locSupported: v.locSup})
 		rp := s.replica("A")
 		var pubSet jwk.Set
 		if v.secret == "" {
@@ -86,7 +92,7 @@ func runC13(c *ctx) {
 			}
 			q := url.Values{}
 			if r.chance(1, 2) {
-				q.Set("level", pick(r, []string{"Level3", "Level4", "idporten-loa-high", "idporten-loa-substantial", "bogus", ""}))
+				q.Set("level", pick(r, []string{"Level3", "Level4", "idporten-loa-high", "idporten-loa-substantial", "custom-acr", "bogus", ""}))
 			}
 			if r.chance(1, 2) {
 				q.Set("locale", pick(r, []string{"nb", "en", "se", "xx", ""}))
@@ -197,7 +203,7 @@ func runC13(c *ctx) {
 				locBase = cp.String()
 			}
 			c.count("ep:" + ep)
-			c.emit("login13", "variant", vi, "ings", v.ings, "par", v.par, "secret", v.secret != "", "acrdef", hx(v.acr), "locdef", hx(v.locale), "ep", ep,
+			c.emit("login13", "variant", vi, "ings", v.ings, "par", v.par, "secret", v.secret != "", "acrdef", hx(v.acr), "locdef", hx(v.locale), "acrsup", orDefault(v.acrSup, []string{"idporten-loa-substantial", "idporten-loa-high"}), "locsup", orDefault(v.locSup, []string{"nb", "nb", "en", "se"}), "ep", ep,
 				"host", hx(host), "xfh", hx(xfh), "path", hx(prefix+"/oauth2/"+ep), "level", hx(q.Get("level")), "locale", hx(q.Get("locale")), "prompt", hx(q.Get("prompt")),
 				"status", resp.Status, "locbase", hx(locBase), "frontkeys", frontKeys, "hascookie", hasCookie, "haslogoutcookie", hasLogoutCookie,
 				"p_response_type", hx(params.Get("response_type")), "p_method", hx(params.Get("code_challenge_method")), "challengeok", challengeOK,
@@ -211,4 +217,11 @@ func runC13(c *ctx) {
 		s.close()
 	}
 	c.emit("fresh13", "total", total, "dups", dups, "minlen", minLen)
+}
+
+func orDefault(v, d []string) []string {
+	if v == nil {
+		return d
+	}
+	return v
 }
